@@ -47,7 +47,7 @@ pub fn drive(a: &Args) -> i32 {
         let mut events: Vec<Value> = Vec::new();
         rt.block_on(async {
             let tasks_before = tokio::runtime::Handle::current().metrics().num_alive_tasks();
-            let c = match net::build_cluster(&spec, &mut rng, hub_rng).await {
+            let mut c = match net::build_cluster(&spec, &mut rng, hub_rng).await {
                 Ok(c) => c,
                 Err(e) => {
                     eprintln!("cluster: {e}");
@@ -60,6 +60,20 @@ pub fn drive(a: &Args) -> i32 {
                 }
                 let mut invented = Vec::new();
                 crate::c01::add_liars(&c, &mut rng, &mut invented).await;
+            }
+            // newcomers: further real nodes that connect to node 0 while its operations are in flight (the connect handler
+            // takes the routing-table and peer-bookkeeping locks that lookups and served requests also take)
+            let n_old = c.reals.len();
+            let n_new = if seg % 2 == 0 { rng.gen_range(1..=5usize) } else { 0 };
+            for j in 0..n_new {
+                let id = net::hex_id(&mut rng);
+                match net::spawn_real_ct(&c.hub, &id, &net::addr_for(200 + j), spec.request_timeout, spec.k, spec.conn_timeout_mult).await {
+                    Ok(r) => c.reals.push(r),
+                    Err(e) => {
+                        eprintln!("newcomer: {e}");
+                        std::process::exit(2)
+                    }
+                }
             }
             let n = c.reals.len();
             let start = tokio::time::Instant::now();
@@ -101,6 +115,17 @@ pub fn drive(a: &Args) -> i32 {
                     }));
                 }
             }
+            // the newcomers dial node 0 at seeded instants
+            let mut dials = Vec::new();
+            for i in n_old..n {
+                let m = c.reals[i].mgr.clone();
+                let addr = node.addr.clone();
+                let at = rng.gen_range(0..3000u64) / scale;
+                dials.push(tokio::spawn(async move {
+                    tokio::time::sleep(Duration::from_millis(at)).await;
+                    let _ = m.connect_to_peer(&addr).await;
+                }));
+            }
             // peers turning silent mid-operation
             let mut silenced = 0;
             for i in 1..n {
@@ -120,7 +145,8 @@ pub fn drive(a: &Args) -> i32 {
             tokio::time::sleep(Duration::from_millis(stop_at)).await;
             let peers_known = c.hub.neighbours(&node.id).len();
             let stop_call = ms();
-            let horizon = Duration::from_millis(TIMEOUT_MS * 400);
+            // how long a hanging operation / stop is waited for before it is recorded as unfinished (real time costs wall clock)
+            let horizon = Duration::from_millis(TIMEOUT_MS * if real { 180 } else { 400 });
             let stop_ret: i64 = match tokio::time::timeout(horizon, node.mgr.stop()).await {
                 Ok(_) => ms() as i64,
                 Err(_) => -1,
@@ -128,13 +154,18 @@ pub fn drive(a: &Args) -> i32 {
             let seq_at_stop = c.hub.seq();
             // let everything still in flight run to completion (or hang)
             let mut unfinished = 0;
+            // one common deadline: hanging operations are waited for together, not one after the other
+            let deadline = tokio::time::Instant::now() + horizon;
             for h in hs {
-                if tokio::time::timeout(horizon, h).await.is_err() {
+                if tokio::time::timeout_at(deadline, h).await.is_err() {
                     unfinished += 1;
                 }
             }
             for h in others {
-                let _ = tokio::time::timeout(horizon, h).await;
+                let _ = tokio::time::timeout_at(deadline, h).await;
+            }
+            for h in dials {
+                let _ = tokio::time::timeout_at(deadline, h).await;
             }
             net::settle().await;
             // requests node 0 sent after stop() had returned
@@ -153,7 +184,7 @@ pub fn drive(a: &Args) -> i32 {
             tokio::time::sleep(Duration::from_millis(if real { 1500 } else { 120_000 })).await;
             net::settle().await;
             let tasks_after = tokio::runtime::Handle::current().metrics().num_alive_tasks();
-            events.push(json!({"ev":"Run","mult": if real { 4 } else { 1 },"mode": if real { "real" } else { "virtual" },"nodes":nodes,"peers":peers_known,"timeout":TIMEOUT_MS,"delay":spec.delay_max_ms,"silenced":silenced,
+            events.push(json!({"ev":"Run","mult": if real { 4 } else { 1 },"mode": if real { "real" } else { "virtual" },"nodes":nodes,"peers":peers_known,"timeout":TIMEOUT_MS,"delay":spec.delay_max_ms,"silenced":silenced,"newcomers":n_new,
                                "issued":nops,"ops":ops,"unfinished":unfinished,"stop_call":stop_call,"stop_ret":stop_ret,
                                "after_stop":after.len(),"after_stop_ops":after,"tasks_before":tasks_before,"tasks_after":tasks_after}));
         });
